@@ -438,7 +438,21 @@ class Interp:
                     if short == "map_or":
                         return args[1]
                     return opt(0, None)
+                # captured references to locals of this frame are lent to the closure through the heap
+                lent, ops = [], []
+                for ci, op in enumerate(clo[2]):
+                    if isinstance(op, tuple) and op and op[0] == "ref" and op[1][0] == "L":
+                        nm = "$c%d_%d_%d" % (depth, ci, op[1][1])
+                        st["H"][nm] = st["L"].get(op[1][1])
+                        ops.append(("ref", ("H", nm, op[1][2])))
+                        lent.append((nm, op[1][1]))
+                    else:
+                        ops.append(op)
+                clo = ("closure", clo[1], tuple(ops))
                 res = self.run(cb, [clo, a0[2] if a0[2] is not None else ("top",)], st["H"], depth + 1)
+                for nm, l in lent:
+                    if nm in st["H"]:
+                        st["L"][l] = st["H"].pop(nm)
                 if res == "diverge":
                     return "diverge" if a0[1] == 1 else ("top",)
                 if short == "is_some_and" and res[0] == "bool":
